@@ -314,7 +314,7 @@ func runCase(b *rt.Built, s *m.Service, meth *m.Method, c *caseRec) string {
 	hc.Stub = harness.StubSpec{Error: &e}
 	obs, err := b.H.Do(hc)
 	if err != nil {
-		return "INCONCLUSIVE harness: " + err.Error()
+		return "INCONCLUSIVE: harness: " + err.Error()
 	}
 	if obs.Err != "" {
 		return "harness could not run the case: " + obs.Err
